@@ -129,6 +129,7 @@ def make_frame(x, name, L, sparse=False):
         df = df.iloc[list(range(1, n)) + [0]]
     if L["colperm"] == "rev":
         df = df[list(df.columns)[::-1]]
-    if not L["index"]:
+    if not L["index"] and not (L["rowperm"] == "rot" and L["header"] == "names"):
+        # (rotated name-headed column frames keep their old integer row labels, as after df.iloc[...] / sort_values)
         df = df.reset_index(drop=True)
     return df
